@@ -210,6 +210,7 @@ func checkConcurrencyFacts(c *vh.Ctx) {
 	c.Res.Extra["concurrency_facts"] = map[string]interface{}{"package_vars": len(t["concurrency.package_vars"]), "package_var_writes": len(t["concurrency.package_var_writes"]),
 		"pool_list_accesses": nAcc, "pool_list_unlocked": nUnlocked, "run_state_allocations": len(t["concurrency.run_state_allocations"]),
 		"map_ranges_writing_output": len(t["concurrency.map_ranges_writing_output"]), "fatal_sites": nFatal}
+	checkSessionFacts(c)
 }
 
 // checkFatalFacts: the obligations behind `NoFatal` and the per-run error classes (C11).
